@@ -31,8 +31,9 @@ try:
     dst = os.path.join(wt, place, f"demo_{ab}_test.go")
     shutil.copy(demo, dst)
     pkg = "./" + place if place not in (".", "") else "."
-    race = ["-race"] if prop == "C16" else []  # C16's demonstrations use the race detector as their oracle
-    rc, o = sh(["go", "test"] + race + ["-count=1", "-run", ".", pkg]); ran.append(f"demo without change{' (-race)' if race else ''}: exit {rc}")
+    race = ["-race"] if prop == "C16" else []
+    runpat = "TestDemo" if prop == "C16" else "."  # C16's demonstrations use the race detector as their oracle
+    rc, o = sh(["go", "test"] + race + ["-count=1", "-run", runpat, pkg]); ran.append(f"demo without change{' (-race)' if race else ''}: exit {rc}")
     if rc != 0:
         print("DEMO FAILS WITHOUT THE CHANGE\n", o[-1500:]); sys.exit(1)
     os.remove(dst)
@@ -46,7 +47,7 @@ try:
     if rc != 0:
         print("EXISTING SUITE FAILS WITH THE CHANGE\n", o[-1500:]); sys.exit(1)
     shutil.copy(demo, dst)
-    rc, o = sh(["go", "test"] + race + ["-count=1", "-run", ".", pkg]); ran.append(f"demo with change{' (-race)' if race else ''}: exit {rc}")
+    rc, o = sh(["go", "test"] + race + ["-count=1", "-run", runpat, pkg]); ran.append(f"demo with change{' (-race)' if race else ''}: exit {rc}")
     if rc == 0:
         print("DEMO PASSES WITH THE CHANGE"); sys.exit(1)
     fail_excerpt = "\n".join([l for l in o.splitlines() if "FAIL" in l or "---" in l or "rror" in l][:6])
